@@ -470,16 +470,18 @@ where
     /// event exists in the future event set.
     #[allow(clippy::should_implement_trait)]
     fn dispatch_event(&mut self) -> bool {
-        if self.future_event_set.is_empty() {
+        // The limit is checked against the next event without removing it:
+        // taking it out and re-adding it would reorder events that share its
+        // timestamp and move the lower bound for new events past `sim_time`.
+        let Some(next) = self.future_event_set.next_time() else {
+            return true;
+        };
+
+        if self.limit.applies(self.itr + 1, next) {
             return true;
         }
 
         let (event, time) = self.future_event_set.fetch_next();
-
-        if self.limit.applies(self.itr + 1, time) {
-            self.future_event_set.add(time, event);
-            return true;
-        }
 
         self.itr += 1;
 
